@@ -127,7 +127,12 @@ void cmb_event_queue_terminate(void)
  */
 void cmb_event_queue_clear(void)
 {
+    cmb_assert_release(event_queue != NULL);
+
+    /* Slot 0 holds the currently executing event, keep it for cmb_event_current() */
+    const struct cmi_heap_tag current = event_queue->heap[0];
     cmi_hashheap_clear(event_queue);
+    event_queue->heap[0] = current;
 }
 
 /*
